@@ -337,6 +337,14 @@ func runC12(r *Report, rng *rand.Rand, thorough bool) {
 					scenarios = append(scenarios, map[string]any{"id": id, "pkg": name, "req": map[string]any{"method": "GET", "target": "/" + c.Op},
 						"opts": opts(map[string]any{"strict_response_type": mm[1], "strict_response_json": raw, "strict_middlewares": i % 2})})
 					metas[id] = meta{fw, c, map[string]any{"value": val, "supplied": sup, "type": mm[1]}, "response"}
+					if i == 0 {
+						// the handler hands back a response object of the operation TOGETHER WITH an error: the error decides
+						id2 := id + "/with-error"
+						scenarios = append(scenarios, map[string]any{"id": id2, "pkg": name, "req": map[string]any{"method": "GET", "target": "/" + c.Op},
+							"opts": opts(map[string]any{"strict_response_type": mm[1], "strict_response_json": raw, "strict_handler_error_with_response": true})})
+						metas[id2] = meta{fw, c, nil, "handler-error"}
+						r.Dist["handler_error_together_with_a_response_object"]++
+					}
 				}
 				// handler error -> error path
 				id := fmt.Sprintf("%s/%s/err", name, c.Op)
